@@ -28,6 +28,13 @@ Lemma passvars_reset_l :
   forallb (fun u => existsb (String.eqb (snd u)) ["passDoTest"; "passDoAction"; "doPassSearch"; "back_passDoTest"; "back_passDoAction"]%string) passvars_users = true.
 Proof. vm_compute. repeat split; reflexivity. Qed.
 
+(* translation_direction: the forward main pass sets it to 1 and the backward main pass to 0, each before its first
+   loop, and nothing else assigns it *)
+Lemma direction_l :
+  direction_assignments =
+  [("lou_backTranslateString.c", "backTranslateString", 0%Z, true); ("lou_translateString.c", "translateString", 1%Z, true)]%string.
+Proof. reflexivity. Qed.
+
 Lemma free_covers_l :
   forallb (fun v => existsb (String.eqb v) free_resets) must_be_reset_by_free = true.
 Proof. vm_compute. reflexivity. Qed.
